@@ -83,9 +83,12 @@ def verdict_ref(pval, alpha):
     return pval > alpha
 
 
+VALUE_DTYPE = [float]        # the dtype of the value arrays built by mkds (count histograms are integer arrays)
+
+
 def mkds(vals, errs, shape):
     from valjean.eponine.dataset import Dataset
-    return Dataset(np.array(vals, dtype=float).reshape(shape), np.array(errs, dtype=float).reshape(shape))
+    return Dataset(np.array(vals, dtype=VALUE_DTYPE[0]).reshape(shape), np.array(errs, dtype=float).reshape(shape))
 
 
 def judge(rep, family, dsets, shape, ignore, alpha, tagx=''):
@@ -150,6 +153,20 @@ def job_a(args):
                 judge(rep, 'A1t', [[b]], (1,), ignore, alpha, tagx='|tiny')
                 for b2 in second:
                     judge(rep, 'A2t', [[b, b2]], (2,), ignore, alpha, tagx='|tiny')
+    if first_v1 == VALS[1]:
+        # count histograms: integer value arrays (int32 / int64) with float errors, differences up to beyond sqrt(2**31) / 2**32
+        counts = [0, 3, 50000, 100000, 4000000000]
+        cerrs = [0.0, 10.0, 1000.0]
+        for dtype in (np.int32, np.int64):
+            VALUE_DTYPE[0] = dtype
+            try:
+                vals_ok = [c for c in counts if c <= np.iinfo(dtype).max]
+                for alpha in (0.01, 0.5):
+                    for v1, e1, v2, e2 in itertools.product(vals_ok, cerrs, vals_ok, cerrs):
+                        judge(rep, 'Ai', [[(v1, e1, v2, e2)]], (1,), ignore, alpha, tagx=f'|{np.dtype(dtype).name}')
+                        judge(rep, 'Ai2', [[(v1, e1, v2, e2), (3, 10.0, 0, 10.0)]], (2,), ignore, alpha, tagx=f'|{np.dtype(dtype).name}')
+            finally:
+                VALUE_DTYPE[0] = float
     rep.sample({'A2': {'bins(v1,e1,v2,e2)': [one[4], allb[77]], 'ignore_empty': ignore}})
     return rep
 
